@@ -1,10 +1,9 @@
 """C19 - ifthen tests evaluate as the boolean expression they spell.
 
-R19.1 precedence table (partial evaluation of prec per operator class) and the
-prefix-operator rule, R19.2 operator-set / arity / comparison agreement,
-R19.3 branch selection of ifthenelse and loop shape of whiledo, R19.4 atoms,
-R19.5 the evaluator, interpreted abstractly over token kinds, agrees with the
-reference semantics on every well-formed expression up to a size bound."""
+R19.3 branch selection of ifthenelse and the iterations of whiledo (interpreted with scripted expansions), R19.4 atoms
+(interpreted on their parsed arguments), R19.5 the evaluator interpreted on token sequences of generated expressions
+(truth tokens, number comparisons, \\not/\\and/\\or in both spellings, parentheses, blanks) against the reference
+semantics of the property - this decides precedence, associativity, arity and operand order together."""
 import ast
 import itertools
 import re
@@ -12,15 +11,14 @@ import re
 from .. import absint as A
 from .. import model as M
 from ..report import AnalysisError, need
-from ..util import SelfHooks, text
+from ..util import text
+from . import domheap as D
 
 MOD = 'plasTeX.Packages.ifthen'
 
 
 def check(chk):
     m = chk.model
-    r191(chk, m)
-    r192(chk, m)
     r193(chk, m)
     r194(chk, m)
     r195(chk, m)
@@ -30,276 +28,111 @@ def check(chk):
     chk.decline('evaluation of concrete operands (macro-produced numbers, lengths in mixed units); expressions beyond the size bound')
 
 
-def tok(kind, label=None):
-    attrs = {'kind': kind, 'catcode': 0, 'distinct': True}
-    if kind == 'T':
-        attrs.update(state=True)
-    elif kind == 'F':
-        attrs.update(state=False)
-    attrs['nodeName'] = {'(': '(', ')': ')', 'and': 'and', 'or': 'or', 'not': 'not', 'AND': 'AND', 'OR': 'OR', 'NOT': 'NOT'}.get(kind, '#text')
-    return A.Sym(label or kind, truthy=True, attrs=attrs)
+class IfHooks(D.DomHooks):
+    """Tokens of a test on the heap: truth tokens and operator macros are instances of their classes, digits and relation
+    signs are character tokens of category OTHER, numbers read from digits are Python integers (instances of `number`)."""
 
+    def __init__(self, model, cls, parse=None, expansions=None, dims=None):
+        D.DomHooks.__init__(self, model, cls)
+        self.parse = parse
+        self.expansions = expansions or {}
+        self.dims = dims
+        self.Space = model.cls('plasTeX.Tokenizer', 'Space')
 
-KIND_CLASSES = {'and': '_and', 'or': '_or', 'not': '_not', 'AND': 'AND', 'OR': 'OR', 'NOT': 'NOT', 'T': '_true', 'F': '_false'}
-
-
-class EvHooks(SelfHooks):
-    def __init__(self, model, cls, tokens=()):
-        SelfHooks.__init__(self, model, cls)
-        self.tokens = list(tokens)
-        self.mod = model.module(MOD)
-
-    def _isinst(self, v, target):
-        targets = target if isinstance(target, tuple) else (target,)
-        if isinstance(v, A.Sym) and 'kind' in v.attrs:
-            cn = KIND_CLASSES.get(v.attrs['kind'])
-            if cn is None:
-                return False
-            c = self.mod.classes[cn]
-            return any(isinstance(t, M.ClassInfo) and self.model.is_subclass(c, t) for t in targets)
-        if isinstance(v, A.Inst):
-            return any(isinstance(t, M.ClassInfo) and self.model.is_subclass(v.cls, t) for t in targets)
+    def lookup(self, interp, name, state):
+        if name == 'Token.CC_OTHER':
+            return 12
+        if name == 'Token.CC_SPACE':
+            return 10
+        if name == 'Token.CC_LETTER':
+            return 11
         return None
 
     def call(self, interp, node, fname, args, kwargs, state):
-        if fname == 'isinstance' and len(args) == 2:
-            return self._isinst(args[0], args[1])
-        if fname == 'iter' and len(args) == 1:
-            return A.Sym('testiter')
-        if fname == 'next' and args and isinstance(args[0], A.Sym) and args[0].label == 'testiter':
-            pos = state.env.get('__pos', 0)
-            if pos >= len(self.tokens):
-                return args[1] if len(args) > 1 else A.TOP
-            state.env['__pos'] = pos + 1
-            return self.tokens[pos]
-        if fname == 'Space':
-            return A.Sym('SPACE', truthy=True, attrs={'catcode': 10, 'nodeName': '#text', 'kind': 'space'})
-        if fname in ('_true', '_false'):
-            return tok('T' if fname == '_true' else 'F')
-        if fname == 'self.prec' and len(args) == 1:
-            return run_prec(self.model, self.cls, args[0])
-        return None
-
-    def iter_item(self, interp, loop, k, state):
-        it = interp.ev(loop.iter, state)
-        if isinstance(it, A.Sym) and it.label == 'testiter':
-            pos = state.env.get('__pos', 0)
-            if pos >= len(self.tokens):
-                return A.STOP
-            state.env['__pos'] = pos + 1
-            return self.tokens[pos]
-        return None
-
-    def decide(self, interp, test, state):
-        # tok in ['>', '<', '=']  for abstract tokens
-        if isinstance(test, ast.Compare) and len(test.ops) == 1 and isinstance(test.ops[0], (ast.In, ast.NotIn, ast.Eq)):
-            l = interp.ev(test.left, state)
-            r = interp.ev(test.comparators[0], state)
-            if isinstance(l, A.Sym) and 'kind' in l.attrs and (isinstance(r, (list, tuple)) and all(isinstance(x, str) for x in r) or isinstance(r, str)):
-                k = l.attrs['kind']
-                if isinstance(test.ops[0], ast.Eq):
-                    return k == r
-                res = k in r
-                return res if isinstance(test.ops[0], ast.In) else not res
-        return None
-
-    def keep(self, ev):
-        return False
-
-
-_PREC = {}
+        if fname == 'isinstance' and len(args) == 2 and isinstance(args[0], int) and not isinstance(args[0], bool):
+            ks = list(args[1]) if isinstance(args[1], tuple) else [args[1]]
+            if all(isinstance(k, (M.ClassInfo, type)) for k in ks):
+                return any((isinstance(k, M.ClassInfo) and k.name in ('number', 'count')) or k is int for k in ks)
+        if fname == 'Space' and not args:
+            return A.TextObj(' ', label='SP', catcode=10, nodeName='#text', __cls=self.Space, __eqkey=('tok', 10, ' '))
+        if fname == 'number' and len(args) == 1 and isinstance(args[0], int):
+            return int(args[0])
+        if isinstance(node.func, ast.Attribute):
+            attr = node.func.attr
+            if attr == 'readInternalType' and args and isinstance(args[0], list):
+                try:
+                    return int(''.join(str(t) for t in args[0]))
+                except ValueError:
+                    state.env['__exc'] = 'ValueError'
+                    return A.TOP
+            if attr == 'parse' and isinstance(node.func.value, ast.Name) and node.func.value.id == 'self' and self.parse is not None:
+                return self.parse
+            if attr == 'evaluate' and getattr(self, 'short_evaluate', False) and len(args) == 2:
+                # long loops: the value of a one-token test is read off directly (evaluate itself is decided by R19.5)
+                t = args[1]
+                t = t[0] if isinstance(t, list) and len(t) == 1 else t
+                if isinstance(t, A.Obj) and getattr(t.cls, 'name', '') in ('_true', '_false'):
+                    return t
+            if attr == 'expandTokens' and args and isinstance(args[0], A.Obj) and args[0].label in self.expansions:
+                k = state.env.get('__n_' + args[0].label, 0)
+                state.env['__n_' + args[0].label] = k + 1
+                seq = self.expansions[args[0].label]
+                if k >= len(seq):
+                    state.env['__exc'] = 'RunawayLoop'
+                    return A.TOP
+                state.env.setdefault('__log', []).append('%s#%d' % (args[0].label, k + 1))
+                return seq[k](state)
+            if attr == 'pushTokens' and self.dims is not None:
+                return A.NONE
+            if attr == 'readDimen' and self.dims is not None:
+                k = state.env.get('__ndim', 0)
+                state.env['__ndim'] = k + 1
+                return self.dims[0][k] if k < 2 else A.TOP
+            if attr == 'itertokens' and self.dims is not None:
+                return A.Iter([self.dims[1]])
+        return D.DomHooks.call(self, interp, node, fname, args, kwargs, state)
 
 
-def run_prec(m, cls, t):
-    key = t.attrs.get('kind') if isinstance(t, A.Sym) else repr(t)
-    if key in _PREC:
-        return _PREC[key]
-    fn = m.find_method(cls, 'prec')
-    it = A.Interp(model=m, scope=fn, hooks=EvHooks(m, cls), max_iter=1, exc_edges=False)
-    outs = it.run_function(fn, env={'tok': t})
-    vals = {repr(v) for kind, s, v in outs if kind == 'return'}
-    need(len(vals) == 1, 'prec(%s) is not single-valued: %s' % (key, vals))
-    v = [v for kind, s, v in outs if kind == 'return'][0]
-    need(isinstance(v, int), 'prec(%s) does not fold to an integer' % key)
-    _PREC[key] = v
-    return v
+def build_tokens(m, spec):
+    """heap tokens for a test written as a list of words: T F not and or NOT AND OR ( ) SP, integers, < > ="""
+    mod = m.module(MOD)
+    Command = m.cls('plasTeX', 'Command')
+    out = []
+    for i, w in enumerate(spec):
+        if w in ('T', 'F'):
+            c = mod.classes['_true' if w == 'T' else '_false']
+            out.append(A.Obj('%s%d' % (w, i), {'catcode': None, 'nodeName': '#text'}, cls=c))
+        elif w in ('not', 'and', 'or', 'NOT', 'AND', 'OR'):
+            c = mod.classes[w if w.isupper() else '_' + w]
+            out.append(A.Obj('%s%d' % (w, i), {'catcode': None, 'nodeName': w}, cls=c))
+        elif w in ('(', ')'):
+            out.append(A.Obj('%s%d' % (w, i), {'catcode': None, 'nodeName': w}, cls=Command))
+        elif w == 'SP':
+            out.append(A.TextObj(' ', label='SP%d' % i, catcode=10, nodeName='#text', __eqkey=('tok', 10, ' ')))
+        elif w in ('<', '>', '=') or w.lstrip('-').isdigit():
+            for ch in w:
+                out.append(A.TextObj(ch, label='%s@%d' % (ch, i), catcode=12, nodeName='#text', __eqkey=('tok', 12, ch)))
+            if w.lstrip('-').isdigit() and i + 1 < len(spec) and spec[i + 1].isdigit():
+                raise AnalysisError('two numbers in a row in a generated test')
+        else:
+            raise AnalysisError('unknown word %r in a generated test' % w)
+    return out
 
 
-def r191(chk, m):
-    R = chk.rule('R19.1', 'precedence: comparison > \\not > \\and = \\or > everything else; an incoming prefix operator (\\not) never '
-                 'pops waiting operators', 6)
-    cls = m.cls(MOD, 'ifthenelse')
-    fn = m.find_method(cls, 'prec')
-    chk.analysed(fn)
-    p = {k: run_prec(m, cls, tok(k)) for k in ('<', '>', '=', 'not', 'NOT', 'and', 'AND', 'or', 'OR', '(', 'T')}
-    chk.verdict(R, 'comparisons share one level', p['<'] == p['>'] == p['='], 'prec of < > = : %s' % [p['<'], p['>'], p['=']], chk.where(fn), str(p))
-    chk.verdict(R, '\\not binds tighter than \\and/\\or, looser than comparisons', p['<'] > p['not'] > p['and'] and p['not'] == p['NOT'],
-                'prec(comparison)=%d, prec(\\not)=%d/%d, prec(\\and)=%d: \\not must sit strictly between' % (p['<'], p['not'], p['NOT'], p['and']), chk.where(fn))
-    chk.verdict(R, '\\and and \\or have equal precedence', p['and'] == p['or'] == p['AND'] == p['OR'],
-                'prec(\\and)=%d prec(\\or)=%d prec(\\AND)=%d prec(\\OR)=%d: they must be equal (left to right evaluation)'
-                % (p['and'], p['or'], p['AND'], p['OR']), chk.where(fn))
-    chk.verdict(R, 'parentheses and operands rank below every operator', p['('] < p['and'] and p['T'] < p['and'],
-                'prec(\'(\')=%d prec(operand)=%d must be below prec(\\and)=%d' % (p['('], p['T'], p['and']), chk.where(fn))
-    ev = m.find_method(cls, 'evaluate')
-    chk.analysed(ev)
-    pops = [n for n in M.walk_no_nested(ev.node) if isinstance(n, ast.While) and 'self.prec(tok)' in text(n.test)]
-    need(len(pops) == 1, 'evaluate: operator-popping loop not found')
-    w = pops[0]
-    from .c06 import guard_chain
-    g = guard_chain(ev.node, w)
-    strict = re.search(r'self\.prec\(tok\) < self\.prec\(stack\[-1\]\)', text(w.test)) is not None
-    guarded = any(re.fullmatch(r'not isinstance\(tok, \(_not, NOT\)\)|not isinstance\(tok, \(NOT, _not\)\)', x) for x in g)
-    chk.verdict(R, 'an incoming \\not does not pop', guarded or strict,
-                'the popping loop `%s` runs for an incoming \\not as for a binary operator (guards %s): "A \\and \\not B" would apply '
-                '\\and before its second operand exists' % (text(w.test), g), chk.where(ev, w))
-    lassoc = re.search(r'self\.prec\(tok\) <= self\.prec\(stack\[-1\]\)', text(w.test)) is not None
-    chk.verdict(R, 'binary operators of equal precedence associate to the left', lassoc or strict is False and lassoc,
-                'the popping test must be <= so that equal-precedence operators evaluate left to right: %s' % text(w.test), chk.where(ev, w))
-
-
-def r192(chk, m):
-    R = chk.rule('R19.2', 'operator-set agreement: the classes known to prec are exactly those handled by the evaluation chain; \\and '
-                 'and \\or pop two booleans, \\not one; < > = pop second then first operand and compare first OP second', 6)
-    cls = m.cls(MOD, 'ifthenelse')
-    ev = m.find_method(cls, 'evaluate')
-    pr = m.find_method(cls, 'prec')
-
-    def inst_classes(fn):
-        out = set()
-        for c in M.calls_in(fn.node):
-            if M.call_name(c) == 'isinstance' and len(c.args) == 2 and text(c.args[0]) == 'tok':
-                t = c.args[1]
-                for e in (t.elts if isinstance(t, ast.Tuple) else [t]):
-                    out.add(text(e))
-        return out
-    known = inst_classes(pr)
-    handled = inst_classes(ev) - {'_boolToken', 'number'}
-    chk.verdict(R, 'prec and evaluate know the same operator classes', known == handled and known == {'_and', 'AND', '_or', 'OR', '_not', 'NOT'},
-                'prec ranks %s, the evaluation chain handles %s' % (sorted(known), sorted(handled)), chk.where(ev))
-    # evaluation arms
-    chain = [n for n in M.walk_no_nested(ev.node) if isinstance(n, ast.If)]
-    arms = {}
-    for n in chain:
-        t = text(n.test)
-        for key, rx in (('and', r'isinstance\(tok, \(_and, AND\)\)'), ('or', r'isinstance\(tok, \(_or, OR\)\)'), ('not', r'isinstance\(tok, \(_not, NOT\)\)'),
-                        ('>', r"tok == '>'"), ('<', r"tok == '<'"), ('=', r"tok == '='")):
-            if re.fullmatch(rx, t):
-                arms[key] = n
-    for key, npop, expr in (('and', 2, 'op1.state and op2.state'), ('or', 2, 'op1.state or op2.state'), ('not', 1, None)):
-        n = arms.get(key)
-        ok = False
-        if n is not None:
-            pops = [text(s) for s in n.body if isinstance(s, ast.Assign) and text(s.value) == 'stack.pop()']
-            src = ' '.join(text(s) for s in n.body)
-            if key == 'not':
-                ok = len(pops) == 1 and '_false() if op1.state else _true()' in src
-            else:
-                ok = len(pops) == 2 and ('_true() if %s else _false()' % expr) in src
-        chk.verdict(R, 'evaluation arm \\%s' % key, ok, 'the \\%s arm must pop %d boolean(s) and push %s' % (key, npop, expr or 'the negation'), chk.where(ev))
-    for key, op in (('>', '>'), ('<', '<'), ('=', '==')):
-        n = arms.get(key)
-        ok = False
-        if n is not None:
-            pops = [text(s.targets[0]) for s in n.body if isinstance(s, ast.Assign) and text(s.value) == 'stack.pop()']
-            src = ' '.join(text(s) for s in n.body)
-            ok = pops == ['op2', 'op1'] and ('_true() if op1 %s op2 else _false()' % op) in src
-        chk.verdict(R, 'evaluation arm %s' % key, ok, 'the %s arm must pop the second operand first and test op1 %s op2' % (key, op), chk.where(ev))
-
-
-def r193(chk, m):
-    R = chk.rule('R19.3', 'branch selection: ifthenelse returns the then-tokens iff the value is true (also when they are empty) and '
-                 'the else-tokens otherwise; whiledo re-expands and re-evaluates the test before every iteration, leaves exactly when it '
-                 'is false, and appends the body once per iteration', 6)
-    cls = m.cls(MOD, 'ifthenelse')
-    fn = m.find_method(cls, 'invoke')
-    chk.analysed(fn)
-    THEN, ELSE = A.Sym('THEN-TOKENS', truthy=True), A.Sym('ELSE-TOKENS', truthy=True)
-    for state in (True, False):
-        for then_v, label in ((THEN, 'non-empty then'), ([], 'empty then')):
-            for else_v, l2 in ((ELSE, 'non-empty else'), ([], 'empty else')):
-                class H(SelfHooks):
-                    def call(self, interp, node, fname, args, kwargs, st):
-                        if fname == 'self.parse':
-                            return {'test': A.Sym('TEST', truthy=True), 'then': then_v, 'else': else_v}
-                        if fname == 'self.evaluate':
-                            return A.Sym('RESULT', truthy=True, attrs={'state': state})
-                        if fname == 'isinstance':
-                            return False
-                        return None
-                it = A.Interp(model=m, scope=fn, hooks=H(m, cls), max_iter=1, exc_edges=False)
-                outs = it.run_function(fn)
-                got = [v for kind, s, v in outs if kind == 'return']
-                want = then_v if state else else_v
-                ok = len(got) >= 1 and all((g is want) or (g == want and isinstance(want, list)) for g in got)
-                chk.verdict(R, 'ifthenelse: value %s, %s, %s' % (state, label, l2), ok,
-                            'with the test %s, %s and %s, invoke returns %s; expected the %s-branch' % (state, label, l2, got, 'then' if state else 'else'),
-                            chk.where(fn), str(got))
-    w = m.find_method(m.cls(MOD, 'whiledo'), 'invoke')
-    chk.analysed(w)
-    loops = [n for n in M.walk_no_nested(w.node) if isinstance(n, (ast.While, ast.For))]
-    ok = len(loops) == 1 and isinstance(loops[0], ast.While) and text(loops[0].test) == 'True'
-    exits = [n for n in ast.walk(loops[0]) if isinstance(n, (ast.Break, ast.Return, ast.Raise))] if loops else []
-    from .c06 import guard_chain
-    from .c07 import parent_stmt
-    eg = [guard_chain(w.node, e) for e in exits]
-    body = [text(s) for s in loops[0].body] if loops else []
-    ok = ok and eg == [['not test_result.state']]
-    idx = lambda pred: next((i for i, s in enumerate(body) if pred(s)), None)
-    i_exp = idx(lambda s: s.startswith('expanded = tex.expandTokens(a[\'test\']'))
-    i_brk = idx(lambda s: s.startswith('if not test_result.state'))
-    i_app = idx(lambda s: s.startswith("tok += tex.expandTokens(a['operations']"))
-    ok = ok and None not in (i_exp, i_brk, i_app) and i_exp < i_brk < i_app and i_app == len(body) - 1
-    stores = [text(n) for n in M.walk_no_nested(w.node) if isinstance(n, (ast.Assign, ast.AugAssign)) and
-              re.match(r'(type\(self\)|whiledo|self\.__class__|cls)\.', text(n.targets[0] if isinstance(n, ast.Assign) else n.target))]
-    chk.verdict(R, 'whiledo loop shape', ok and not stores,
-                'whiledo.invoke must loop `while True`: expand+evaluate the test, break exactly under `not test_result.state`, append the '
-                'expanded body last; found exits under %s, body %s, class-level stores %s' % (eg, [b[:40] for b in body], stores), chk.where(w))
-
-
-def r194(chk, m):
-    R = chk.rule('R19.4', 'atoms produce a true/false token consistently with their test: isodd (n % 2 == 1), equal (==), isundefined '
-                 '(absent -> true), boolean (the switch state), lengthtest (< > and = within a tolerance)', 5)
-    def arms(fn):
-        out = []
-        for n in M.walk_no_nested(fn.node):
-            if isinstance(n, ast.If):
-                t = [text(r.value) for s in n.body for r in ast.walk(s) if isinstance(r, ast.Return)]
-                e = [text(r.value) for s in n.orelse for r in ast.walk(s) if isinstance(r, ast.Return)]
-                out.append((text(n.test), t, e))
-        return out
-    spec = {
-        'isodd': lambda a: any(re.search(r"a\['number'\] % 2 == 1", t) and tr == ['[_true()]'] and el == ['[_false()]'] for t, tr, el in a),
-        'equal': lambda a: any(t == "a['first'] == a['second']" and tr == ['[_true()]'] and el == ['[_false()]'] for t, tr, el in a),
-        'isundefined': lambda a: any(t == "a['name'] in self.ownerDocument.context" and tr == ['[_false()]'] and el == ['[_true()]'] for t, tr, el in a),
-        'boolean': lambda a: any(t == "self.ownerDocument.context[a['name']].state" and tr == ['[_true()]'] and el == ['[_false()]'] for t, tr, el in a),
-    }
-    for name, pred in spec.items():
-        fn = m.find_method(m.cls(MOD, name), 'invoke')
-        chk.analysed(fn)
-        a = arms(fn)
-        chk.verdict(R, 'atom \\%s' % name, pred(a), '\\%s maps its test to truth tokens as %s' % (name, a), chk.where(fn), str(a)[:200])
-    fn = m.find_method(m.cls(MOD, 'lengthtest'), 'invoke')
-    chk.analysed(fn)
-    a = arms(fn)
-    tab = {t: tr for t, tr, el in a}
-    ok = tab.get("relation == '<'") == ['[_true() if a < b else _false()]'] and tab.get("relation == '>'") == ['[_true() if a > b else _false()]'] \
-        and re.fullmatch(r'\[_true\(\) if abs\(a - b\) < [0-9.e-]+ else _false\(\)\]', (tab.get("relation == '='") or ['?'])[0]) is not None
-    order = [text(n.value) for n in M.walk_no_nested(fn.node) if isinstance(n, ast.Assign) and text(n.targets[0]) in ('a', 'b')]
-    chk.verdict(R, 'atom \\lengthtest', ok and order.count('tex.readDimen()') == 2,
-                '\\lengthtest relation table %s (first-read a, second-read b)' % tab, chk.where(fn))
-
-
-# ---------------------------------------------------------------------------
-def reference(tokens):
-    """Reference semantics of the property: \\not tightest, \\and/\\or equal precedence left to right, parentheses."""
+def reference(words):
+    """Reference semantics of the property: \\not tightest, \\and/\\or equal precedence left to right, parentheses, number relations."""
+    toks = [w for w in words if w != 'SP']
     pos = [0]
 
     def peek():
-        return tokens[pos[0]] if pos[0] < len(tokens) else None
+        return toks[pos[0]] if pos[0] < len(toks) else None
+
+    def isnum(t):
+        return t is not None and t.lstrip('-').isdigit()
 
     def operand():
         t = peek()
-        if t == 'not':
+        if t in ('not', 'NOT'):
             pos[0] += 1
             v = operand()
             return None if v is None else (not v)
@@ -313,12 +146,24 @@ def reference(tokens):
         if t in ('T', 'F'):
             pos[0] += 1
             return t == 'T'
+        if isnum(t):
+            a = int(t)
+            pos[0] += 1
+            r = peek()
+            if r not in ('<', '>', '='):
+                return None
+            pos[0] += 1
+            if not isnum(peek()):
+                return None
+            b = int(peek())
+            pos[0] += 1
+            return a < b if r == '<' else (a > b if r == '>' else a == b)
         return None
 
     def expr():
         v = operand()
-        while v is not None and peek() in ('and', 'or'):
-            op = peek()
+        while v is not None and peek() in ('and', 'or', 'AND', 'OR'):
+            op = peek().lower()
             pos[0] += 1
             r = operand()
             if r is None:
@@ -326,49 +171,208 @@ def reference(tokens):
             v = (v and r) if op == 'and' else (v or r)
         return v
     v = expr()
-    if v is None or pos[0] != len(tokens):
+    if v is None or pos[0] != len(toks):
         return None
     return v
 
 
-def r195(chk, m):
-    R = chk.rule('R19.5', 'the evaluator (infix to postfix, then stack evaluation), interpreted abstractly over token kinds, returns the '
-                 'value the reference semantics gives for every well-formed expression of up to 7 tokens over {true, false, \\and, '
-                 '\\or, \\not, (, )}', 300)
+def evaluate_on_heap(m, words):
     cls = m.cls(MOD, 'ifthenelse')
     fn = m.find_method(cls, 'evaluate')
-    chk.analysed(fn)
+    toks = build_tokens(m, words)
+    me = A.Obj('self', {}, cls=cls)
+    it = A.Interp(model=m, scope=fn, hooks=IfHooks(m, cls), max_iter=4 * len(toks) + 8, exc_edges=False, inline=6, heap=True, precise_exc=True, generators=True,
+                  max_states=20000)
+    outs = it.run_function(fn, env={'self': me, 'tex': A.Obj('tex', {}), 'test': toks})
+    if it.imprecise or it.unknown_branches:
+        raise D.Imprecise('; '.join((it.imprecise + it.unknown_branches)[:2]))
+    got = set()
+    for kind, s, v in outs:
+        if kind == 'return' and isinstance(v, A.Obj) and isinstance(v.cls, M.ClassInfo) and v.cls.name in ('_true', '_false'):
+            got.add(v.cls.name == '_true')
+        elif kind == 'return':
+            got.add('returns %r' % (v,))
+        else:
+            got.add('raises %s' % (v,))
+    return got
+
+
+def generated_tests(tier):
+    """Well-formed tests: exhaustive short ones over truth tokens and operators, plus patterns with three operands,
+    comparisons (multi-digit, both outcomes), the upper-case spellings and blanks."""
+    out = []
+    seen = set()
+
+    def add(words):
+        t = tuple(words)
+        if t not in seen and reference(list(words)) is not None:
+            seen.add(t)
+            out.append(list(words))
     alphabet = ['T', 'F', 'and', 'or', 'not', '(', ')']
-    n_bad = 0
-    first_bad = []
-    n = 0
-    tier_max = 8 if chk.tier == 'thorough' else 6
-    for L in range(1, tier_max + 1):
+    for L in range(1, (7 if tier == 'thorough' else 5) + 1):
         for seq in itertools.product(alphabet, repeat=L):
-            # normalise: only T-containing variety needed? keep all well-formed ones
-            want = reference(list(seq))
-            if want is None:
-                continue
-            n += 1
-            toks = [tok(k, '%s%d' % (k, i)) for i, k in enumerate(seq)]
-            it = A.Interp(model=m, scope=fn, hooks=EvHooks(m, cls, toks), max_iter=60, exc_edges=False, max_states=200000)
-            try:
-                outs = it.run_function(fn, env={'test': A.Sym('TEST'), 'tex': A.Sym('tex')})
-            except AnalysisError as e:
-                raise
-            got = set()
-            for kind, s, v in outs:
-                if kind == 'return' and isinstance(v, A.Sym) and 'state' in v.attrs:
-                    got.add(v.attrs['state'])
-                else:
-                    got.add('?%s' % kind)
-            if got != {want}:
-                n_bad += 1
-                if len(first_bad) < 5:
-                    first_bad.append('%s -> %s, expected %s' % (' '.join('\\' + k if k in ('and', 'or', 'not') else {'T': 'true', 'F': 'false'}.get(k, k) for k in seq),
-                                                                 sorted(map(str, got)), want))
+            add(seq)
+    pats = ['a and b or c', 'a or b and c', 'not a and b', 'a and not b', 'not not a', 'not ( a or b )', 'a and ( b or c )', '( a or b ) and c',
+            'not a or not b and c', 'a or not ( b and c )', 'not ( not a and b ) or c', '( ( a ) ) and ( b )', 'a or b or c', 'a and b and c']
+    for p in pats:
+        for vals in itertools.product('TF', repeat=3):
+            w = [dict(zip('abc', vals)).get(x, x) for x in p.split()]
+            add(w)
+            add([x.upper() if x in ('and', 'or', 'not') else x for x in w])
+    cmps = ['3 < 5', '5 < 3', '5 > 3', '3 > 5', '4 = 4', '4 = 5', '12 < 5', '5 < 12', '10 = 10', '100 > 99', '7 > 7', '7 < 7']
+    for c in cmps:
+        add(c.split())
+        add(['not'] + c.split())
+        add(['('] + c.split() + [')'])
+        for other in ('T', 'F'):
+            add(c.split() + ['and', other])
+            add([other, 'or'] + c.split())
+            add([other, 'and', 'not'] + c.split())
+    add('3 < 5 and 5 < 12 or 4 = 5'.split())
+    add('3 > 5 or 12 > 5 and 4 = 4'.split())
+    add('not ( 3 < 5 and 5 < 3 )'.split())
+    for w in (['T', 'SP', 'and', 'SP', 'F'], ['SP', 'not', 'SP', 'T'], ['3', 'SP', '<', 'SP', '5'], ['(', 'SP', 'T', 'SP', ')', 'or', 'F']):
+        add(w)
+    return out
+
+
+def spell(words):
+    return ' '.join('\\' + w if w.lower() in ('and', 'or', 'not') else {'T': 'true', 'F': 'false', 'SP': '~'}.get(w, w) for w in words)
+
+
+def r195(chk, m):
+    R = chk.rule('R19.5', 'the evaluator (infix to postfix, then stack evaluation), interpreted on the token sequences of generated tests, '
+                 'returns the value the reference semantics gives: \\not binds tightest and may stand wherever an operand may, \\and and '
+                 '\\or have equal precedence and group from the left, parentheses group, number relations compare the first number '
+                 'with the second (multi-digit numbers, both spellings of the operators, blanks between tokens)', 300)
+    cls = m.cls(MOD, 'ifthenelse')
+    fn = m.find_method(cls, 'evaluate')
+    need(fn is not None, 'ifthenelse.evaluate not found')
+    chk.analysed(fn)
+    tests = generated_tests(chk.tier)
+    n_bad, first_bad, undet = 0, [], []
+    for words in tests:
+        want = reference(words)
+        try:
+            got = evaluate_on_heap(m, words)
+        except D.Imprecise as e:
+            undet.append('%s: %s' % (spell(words), e))
+            continue
+        if got != {want}:
+            n_bad += 1
+            if len(first_bad) < 5:
+                first_bad.append('%s -> %s, expected %s' % (spell(words), sorted(map(str, got)), want))
+    n = len(tests)
     chk.paths += n
-    # one obligation per expression would flood the evidence: group by length
     chk.rules[R]['n'] += n - 1
-    chk.verdict(R, 'evaluate agrees with the reference on %d well-formed expressions (<= %d tokens)' % (n, tier_max), n_bad == 0,
-                '%d of %d expressions evaluate differently, e.g. %s' % (n_bad, n, '; '.join(first_bad)), chk.where(fn), '%d expressions' % n)
+    key = 'evaluate agrees with the reference on %d generated tests' % n
+    if undet and not n_bad:
+        chk.undecided(R, key, '%d test(s) could not be interpreted: %s' % (len(undet), undet[:3]), chk.where(fn))
+        return
+    chk.verdict(R, key, n_bad == 0, '%d of %d tests evaluate differently, e.g. %s' % (n_bad, n, '; '.join(first_bad)), chk.where(fn), '%d tests' % n)
+
+
+def r193(chk, m):
+    R = chk.rule('R19.3', 'branch selection and looping, interpreted with scripted expansions: ifthenelse returns the then-tokens iff its '
+                 'test is true (also when they are empty) and the else-tokens otherwise; whiledo expands and evaluates its test before '
+                 'every round, stops at the first false value, and returns the body once per round that was true, in order', 8)
+    cls = m.cls(MOD, 'ifthenelse')
+    fn = m.find_method(cls, 'invoke')
+    chk.analysed(fn)
+    TF = m.cls('plasTeX', 'TeXFragment')
+
+    def frag(words):
+        o = A.Obj('test-fragment', {'_dom_childNodes': build_tokens(m, words), 'nodeType': 11, 'parentNode': None, 'ownerDocument': None, 'attributes': None}, cls=TF)
+        return o
+
+    def run(fn_, cls_, parse, expansions=None, max_iter=40):
+        me = A.Obj('self', {'parentNode': None}, cls=cls_)
+        hk = IfHooks(m, cls_, parse=parse, expansions=expansions)
+        hk.short_evaluate = max_iter > 200
+        it = A.Interp(model=m, scope=fn_, hooks=hk, max_iter=max_iter, exc_edges=False, inline=8, heap=True, generators=True,
+                      precise_exc=True, max_states=20000 if max_iter <= 200 else 400000)
+        it.max_unroll = max(it.max_unroll, max_iter + 10)
+        outs = it.run_function(fn_, env={'self': me, 'tex': A.Obj('tex', {})})
+        if it.imprecise or it.unknown_branches:
+            raise D.Imprecise('; '.join((it.imprecise + it.unknown_branches)[:2]))
+        return outs
+    for words, val in ((['T'], True), (['F'], False), (['not', 'T', 'or', '3', '<', '5'], True), (['T', 'and', 'F'], False)):
+        for then_v, else_v, lab in ((['THEN'], ['ELSE'], 'both branches non-empty'), ([], ['ELSE'], 'empty then'), (['THEN'], [], 'empty else')):
+            for single in ((False, True) if len(words) == 1 else (False,)):
+                key = 'ifthenelse{%s}: %s%s' % (spell(words), lab, ', test given as one token' if single else '')
+                test = build_tokens(m, words)[0] if single else frag(words)
+                try:
+                    outs = run(fn, cls, {'test': test, 'then': then_v, 'else': else_v})
+                except D.Imprecise as e:
+                    chk.undecided(R, key, str(e), chk.where(fn))
+                    continue
+                got = {repr(v) if kind == 'return' else 'raises %s' % (v,) for kind, s, v in outs}
+                want = repr(then_v if val else else_v)
+                chk.decide(R, key, got, {want}, 'with the test %s (%s) invoke returns %s; expected the %s-branch %s'
+                           % (spell(words), val, sorted(got), 'then' if val else 'else', want), chk.where(fn), want)
+    wcls = m.cls(MOD, 'whiledo')
+    w = m.find_method(wcls, 'invoke')
+    chk.analysed(w)
+    for rounds in (0, 1, 3, 1100):
+        for single in ((False, True) if rounds < 100 else (True,)):
+            key = 'whiledo with a test that is true %d time(s)%s' % (rounds, ', expanding to one token' if single else '')
+            TEST, OPS = A.Obj('TEST', {}), A.Obj('OPS', {})
+            mk = (lambda ww: (lambda st: build_tokens(m, ww)[0])) if single else (lambda ww: (lambda st: frag(ww)))
+            exps = {'TEST': [mk(['T'])] * rounds + [mk(['F'])], 'OPS': [(lambda k: (lambda st: ['body%d' % k]))(k) for k in range(1, rounds + 1)]}
+            try:
+                outs = run(w, wcls, {'test': TEST, 'operations': OPS}, exps, max_iter=rounds + 40)
+            except D.Imprecise as e:
+                chk.undecided(R, key, str(e), chk.where(w))
+                continue
+            got = {('%r after %s' % (v, ' '.join(s.env.get('__log', [])))) if kind == 'return' else 'raises %s' % (v,) for kind, s, v in outs}
+            log = []
+            for k in range(1, rounds + 1):
+                log += ['TEST#%d' % k, 'OPS#%d' % k]
+            log.append('TEST#%d' % (rounds + 1))
+            want = '%r after %s' % (['body%d' % k for k in range(1, rounds + 1)], ' '.join(log))
+            chk.decide(R, key, got, {want}, 'whiledo gives %s; expected %s (the test is expanded and evaluated before every round)' % (sorted(got), want),
+                       chk.where(w), want)
+
+
+def r194(chk, m):
+    R = chk.rule('R19.4', 'atoms, interpreted on their parsed arguments, produce exactly one truth token with the value of their test: '
+                 '\\isodd (odd numbers, negative ones included), \\equal (same text), \\isundefined (name not known), \\boolean (the state '
+                 'of the switch), \\lengthtest (first length < > = second, = within rounding)', 20)
+    mod = m.module(MOD)
+
+    def run(name, parse, context=None, dims=None):
+        cls = m.cls(MOD, name)
+        fn = m.find_method(cls, 'invoke')
+        chk.analysed(fn)
+        doc = A.Obj('document', {'context': context if context is not None else {}})
+        me = A.Obj('self', {'ownerDocument': doc}, cls=cls)
+        it = A.Interp(model=m, scope=fn, hooks=IfHooks(m, cls, parse=parse, dims=dims), max_iter=6, exc_edges=False, inline=4, heap=True, precise_exc=True)
+        outs = it.run_function(fn, env={'self': me, 'tex': A.Obj('tex', {})})
+        if it.imprecise or it.unknown_branches:
+            raise D.Imprecise('; '.join((it.imprecise + it.unknown_branches)[:2]))
+        got = set()
+        for kind, s, v in outs:
+            if kind == 'return' and isinstance(v, list) and len(v) == 1 and isinstance(v[0], A.Obj) and getattr(v[0].cls, 'name', '') in ('_true', '_false'):
+                got.add('true' if v[0].cls.name == '_true' else 'false')
+            elif kind == 'return':
+                got.add('returns %r' % (v,))
+            else:
+                got.add('raises %s' % (v,))
+        return fn, got
+    sw = lambda st: A.Obj('switch', {'state': st})
+    cases = [('isodd', {'number': n}, None, None, 'true' if n % 2 else 'false', '\\isodd{%d}' % n) for n in (0, 1, 2, 3, 7, 10, -1, -2, -3)]
+    cases += [('equal', {'first': a, 'second': b}, None, None, 'true' if a == b else 'false', '\\equal{%s}{%s}' % (a, b))
+              for a, b in (('abc', 'abc'), ('abc', 'abd'), ('', ''), ('a', ''), ('A', 'a'))]
+    cases += [('isundefined', {'name': n}, {'known': sw(True)}, None, 'false' if n == 'known' else 'true', '\\isundefined{\\%s}' % n) for n in ('known', 'unknown')]
+    cases += [('boolean', {'name': 'flag'}, {'flag': sw(st)}, None, 'true' if st else 'false', '\\boolean{flag} with the switch %s' % st) for st in (True, False)]
+    for a, rel, b in ((1.0, '<', 2.0), (2.0, '<', 1.0), (2.0, '>', 1.0), (1.0, '>', 2.0), (1.0, '=', 1.0), (1.0, '=', 2.0), (28.45274, '=', 28.452740000001),
+                      (1.0, '<', 1.0), (1.0, '>', 1.0)):
+        want = {'<': a < b, '>': a > b, '=': abs(a - b) < 1e-4}[rel]
+        cases.append(('lengthtest', {'test': ['tokens']}, None, ((a, b), rel), 'true' if want else 'false', '\\lengthtest{%s %s %s}' % (a, rel, b)))
+    for name, parse, ctx, dims, want, label in cases:
+        try:
+            fn, got = run(name, parse, ctx, dims)
+        except D.Imprecise as e:
+            chk.undecided(R, label, str(e), chk.where(m.cls(MOD, name)))
+            continue
+        chk.decide(R, label, got, {want}, '%s gives %s; expected %s' % (label, sorted(got), want), chk.where(fn), want)
